@@ -22,7 +22,7 @@ from __future__ import annotations
 
 import asyncio
 
-EXC = ["E1", "E2", "B1", "CA", "RT"]
+EXC = ["E1", "E2", "B1", "CA", "RT", "SD", "C2"]
 HK = ["N", "E1", "E2", "EX", "CA", "BA", "B1", "RT"]
 
 
@@ -39,6 +39,22 @@ class B1(BaseException):
     would propagate out of the event loop)."""
 
 
+class Shutdown(asyncio.CancelledError):
+    """an application's CancelledError subclass carrying a reason (several args)"""
+
+
+SD_ARGS = ("disk full", 28)
+C2_ARGS = ("r", 7)
+
+
+def make_exc(kind):
+    if kind == "SD":
+        return Shutdown(*SD_ARGS)
+    if kind == "C2":
+        return asyncio.CancelledError(*C2_ARGS)
+    return EXC_CLS[kind]()
+
+
 EXC_CLS = {"E1": E1, "E2": E2, "B1": B1, "CA": asyncio.CancelledError, "RT": RuntimeError}
 HK_CLS = {"E1": "E1", "E2": "E2", "EX": "Exception", "CA": "CancelledError", "BA": "BaseException",
           "B1": "B1", "RT": "RuntimeError"}
@@ -47,7 +63,14 @@ HK_CLS = {"E1": "E1", "E2": "E2", "EX": "Exception", "CA": "CancelledError", "BA
 def kind_of(exc) -> str:
     """canonical exception type"""
     if isinstance(exc, asyncio.CancelledError):
-        return "CA"
+        # type and arguments matter: a Task hands its awaiter exactly what its coroutine raised
+        if type(exc) is Shutdown:
+            return "SD" if exc.args == SD_ARGS else "SD" + repr(exc.args)
+        if type(exc) is asyncio.CancelledError:
+            if exc.args == C2_ARGS:
+                return "C2"
+            return "CA" if not exc.args else "CA" + repr(exc.args)
+        return "CA:" + type(exc).__name__
     if isinstance(exc, E1):
         return "E1"
     if isinstance(exc, E2):
@@ -119,7 +142,7 @@ def _emit(stmts, ind, lines, ctr):
         elif op == "R":
             lines.append(f"{pad}return {s[1]}")
         elif op == "X":
-            lines.append(f"{pad}raise {HK_CLS.get(s[1], s[1])}()")
+            lines.append(f"{pad}raise env.mk({s[1]!r})")
         elif op == "T":
             _, body, hk, rr, hbody, fin = s
             lines.append(f"{pad}try:")
